@@ -9,7 +9,7 @@ Local Open Scope Z_scope.
 Inductive ccase :=
 (** one direction of a real grid: length bits, number of cells, recorded cell_min / cell_max bits *)
 | CExtent (L : Z) (n : Z) (mins maxs : list Z)
-(** hypotheses [pre_ok] of the theorem grid_partition, evaluated on one direction of a generated grid;
+(** hypotheses [pre_ok] of the theorem grid_partition_partial, evaluated on one direction of a generated grid;
     the recorded cell_min are used as witnesses that no cell is empty *)
 | CPre (L : Z) (n : Z) (mins : list Z)
 (** position_to_cell: lengths, counts, list of (position vector bits, returned flat index) *)
